@@ -3,7 +3,7 @@ import Yaql.Drv.ValueJson
 import Yaql.Model.Scalar
 /-! Driver for C15: evaluates every unary / binary scalar operator of the model on a corpus of
 values.  Request `{"p":"C15","vals":[v..],"cap":n,"bin":[op..],"un":[op..]}` with either
-`"pairs":[[i,j]..]` or all pairs; reply `{"bin":[[r..]..],"un":[[r..]..]}`: per operator, per pair (row
+`"pairs":[[i,j]..]` or all pairs (`lim`: see `gray`); reply `{"bin":[[r..]..],"un":[[r..]..]}`: per operator, per pair (row
 major over the corpus when no pairs are given) `{"v":value}` or `{"e":"ErrorClass"}`.
 The four IEEE operations are the machine's doubles (Lean `Float`), as in CPython. -/
 namespace Yaql.Drv.C15
@@ -47,10 +47,19 @@ def tableJ : Json :=
   jl (overloads.map fun o => jo [("name", js (String.ofList o.name)), ("payload", js (String.ofList o.payload)),
     ("params", jl (o.params.map kindsJ)), ("star", match o.star with | some k => kindsJ k | none => .null)])
 
+/-- string repetition whose result would have more than `lim` characters but could be allocated: the
+    harness does not exercise it (on either side) -/
+def gray (lim cap : Nat) (op : BinOp) (a b : SVal) : Bool :=
+  match op, a, b with
+  | .mul, .str s, .int n => n > 0 && s.length * n.toNat > lim && s.length * n.toNat ≤ cap
+  | .mul, .int n, .str s => n > 0 && s.length * n.toNat > lim && s.length * n.toNat ≤ cap
+  | _, _, _ => false
+
 def handle (req : Json) : Json :=
   if jhas req "table" then jo [("table", tableJ)] else
   let vals : Array SVal := ((jarr req "vals").map fun j => (ofValue? (valOfJson j)).getD .null).toArray
   let cap := jnat req "cap"
+  let lim := jnat req "lim"
   let pairs : List (Nat × Nat) :=
     if jhas req "pairs" then
       (jarr req "pairs").map fun p => match asArr p with | [i, j] => (asNat i, asNat j) | _ => (0, 0)
@@ -60,7 +69,10 @@ def handle (req : Json) : Json :=
     if jhas req "singles" then (jarr req "singles").map asNat else List.range vals.size
   let bins := (jarr req "bin").map fun o =>
     match binOf (asStr o) with
-    | some op => jl (pairs.map fun (i, j) => resJ (evalBin machineOps cap op (vals[i]?.getD .null) (vals[j]?.getD .null)))
+    | some op => jl (pairs.map fun (i, j) =>
+        let a := vals[i]?.getD .null
+        let b := vals[j]?.getD .null
+        if gray lim cap op a b then jo [("e", js "not-exercised")] else resJ (evalBin machineOps cap op a b))
     | none => jerr ("unknown binary operator " ++ asStr o)
   let uns := (jarr req "un").map fun o =>
     match unOf (asStr o) with
